@@ -1233,6 +1233,14 @@ class Workflow(Trellis):
         for i, path, new_fh, old_state in records:
             transition = _HASH_TRANSITIONS.get((cause, old_state, not new_fh.is_unknown))
             if transition is None:
+                if (
+                    cause == HashUpdateCause.CONFIRMED
+                    and FILE_ROLE_BY_STATE.get(old_state) != FileRole.STATIC
+                ):
+                    # The hash job that had to confirm this file was still queued or running
+                    # when the node was given another role, e.g. because a detached node
+                    # was recycled as the output of a step. There is nothing left to confirm.
+                    continue
                 raise_unexpected(path, old_state, new_fh)
             new_state, action = transition
             new_states_hashes.append((i, new_state, new_fh))
